@@ -1,4 +1,8 @@
-"""./check <Cnn|setup|selftest|all> [--tier quick|thorough] [--replay path]"""
+"""./check <Cnn|setup> [--tier quick|thorough] [--replay path]
+
+The binding self-tests of DESIGN.md section 7 (tampered predictions / corrupted traces must be rejected, wrong
+implementation-shaped spec instances must be refuted by TLC) are a permanent part of every check run: if one of
+them fails the run is a machinery failure (exit 2)."""
 
 from __future__ import annotations
 
@@ -47,10 +51,6 @@ def main(argv=None) -> int:
 
     if args.target == "setup":
         return setup()
-    if args.target == "selftest":
-        from . import selftest
-
-        return selftest.main(args)
     prop = args.target.upper()
     try:
         mod = importlib.import_module(f"mbt.props.{prop.lower()}")
